@@ -807,10 +807,13 @@ func checkEmit(prop, tier string, seed int, updateLedger bool) int {
 	var samples []interface{}
 	os.MkdirAll(filepath.Join(outRoot, "replays", prop), 0755)
 	nReplays := 0
-	bounded, boundedFailing := 0, 0
+	bounded, boundedFailing, boundedNotRun := 0, 0, 0
 	for _, o := range owned {
 		if strings.HasPrefix(o.Name, "BOUNDED:") {
 			bounded++
+			if strings.HasPrefix(o.Detail, "NOT RUN") {
+				boundedNotRun++
+			}
 			if !o.OK {
 				boundedFailing++
 			}
@@ -917,7 +920,7 @@ func checkEmit(prop, tier string, seed int, updateLedger bool) int {
 	}
 	if bounded > 0 && prop == "C17" {
 		cov["bounded_standins"] = []string{"BOUNDED (not counted as proved): the real Go, Python and Java generators on enumerated programs: every emitted *_test.go parses with go/parser and uses no undeclared identifier, every emitted *_test.py parses with python3 ast and loads no unbound name, every Java test file is named after the public class it declares"}
-		cov["bounded_standin_run"] = map[string]interface{}{"bound": fmt.Sprintf("%d programs enumerated in goverif/emittest.go (testPrograms), 3 languages", len(testPrograms())), "cases": bounded, "failing": boundedFailing}
+		cov["bounded_standin_run"] = map[string]interface{}{"bound": fmt.Sprintf("%d programs enumerated in goverif/emittest.go (testPrograms), 3 languages", len(testPrograms())), "cases": bounded, "failing": boundedFailing, "not_run": boundedNotRun}
 	} else if bounded > 0 {
 		cov["bounded_standins"] = []string{"BOUNDED (not counted as proved): the real LuaWspGenerator.Generate on enumerated programs (declaration order x reference kind x nesting): whole-file advance / scope / defines / returns, and a `local function dissect_x` precedes every call of dissect_x"}
 		cov["bounded_standin_run"] = map[string]interface{}{"bound": fmt.Sprintf("%d programs enumerated in goverif/lua.go (luaPrograms), 5 predicates each", len(luaPrograms())), "cases": bounded, "failing": boundedFailing}
